@@ -1,6 +1,7 @@
 import Duckling.Model.Interp
 import Duckling.Lemmas.Assoc
 import Duckling.Lemmas.ScopedRef
+import Duckling.Lemmas.RBasic
 /-
   C08 — blocks see and update outer variables; what they create dies with them.
 
@@ -28,6 +29,10 @@ import Duckling.Lemmas.ScopedRef
                                    do not shadow;
   * `C08_machine_is_interpreter`  the three operations of that machine are what the interpreter does to the user variables: `enter`,
                                    `assocSet` (VAR, counters, parameters), `exitNormal`.
+  * `C08_repeat_creates_nothing` / `C08_while_creates_nothing` / `C08_block_creates_nothing`   **whole block statements, any body, any number of
+                                   iterations, every exit path**: after an IF / ELIF / ELSE body, a REPEAT / FOR or a WHILE (however many
+                                   iterations ran, however they ended, whatever the body — the child executor is arbitrary) no user variable
+                                   exists that did not exist before the statement: counters, and everything the bodies created, are gone;
   That the interpreter performs these operations at the right moments on every path (the walk over `exec`) is the content of the
   algebraic laws above together with the correspondence against the reference interpreter `harness/refinterp.py`.
 -/
@@ -99,5 +104,91 @@ example :
     let ops : List Spec.ScOp := [.assign "x".toList (.int 1), .enter, .assign "x".toList (.int 2), .assign "y".toList (.int 3), .exit]
     Spec.lookup (ops.foldl Spec.step [[]]) "x".toList = some (.int 2) ∧ Spec.lookup (ops.foldl Spec.step [[]]) "y".toList = none := by
   refine ⟨?_, ?_⟩ <;> rfl
+
+theorem leave_creates_nothing (st cst : St) (x : Str) (h : assocHas st.env.user x = false) :
+    assocHas (leave false st cst).env.user x = false := by
+  have := assocGet_copyBack st.env.user cst.env.user x
+  simp only [leave, VEnv.exitNormal, assocHas]
+  have h2 : assocGet (copyBack st.env.user cst.env.user) x = none := by simpa [h] using this
+  simpa [copyBack] using congrArg Option.isSome h2
+
+/-- after a REPEAT / FOR — any count expression, any body, any number of iterations, any way of ending — no user variable exists that
+    did not exist before it -/
+theorem C08_repeat_creates_nothing (child : Option ChildFn) (ctx : Ctx) (pos : Pos) (var : Option Str) (ce : Str) (body : List Node)
+    (budget count : Nat) (st : St) (out : List Str) (o : Out) (x : Str)
+    (h : repeatLoop child ctx pos var ce body budget count st out = .ok o) (hx : assocHas st.env.user x = false) :
+    assocHas o.st.env.user x = false := by
+  induction budget generalizing count st out with
+  | zero => simp only [repeatLoop] at h; cases h; exact hx
+  | succ b ih =>
+    unfold repeatLoop at h
+    simp only [R.bind_eq_ok] at h
+    obtain ⟨n, _, h⟩ := h
+    split at h
+    · cases h; exact hx
+    · cases child with
+      | none => simp [guardChild, overflowErr] at h
+      | some c =>
+        simp only [guardChild, R.bind_eq_ok] at h
+        obtain ⟨cst, _, r, _, h⟩ := h
+        split at h
+        · rename_i st' out' s heq
+          cases h
+          simp only [afterIter, Prod.mk.injEq] at heq
+          rw [← heq.1]
+          exact leave_creates_nothing st r.st x hx
+        · rename_i st' out' heq
+          simp only [afterIter, Prod.mk.injEq] at heq
+          exact ih _ _ _ h (by rw [← heq.1]; exact leave_creates_nothing st r.st x hx)
+
+/-- the same for WHILE -/
+theorem C08_while_creates_nothing (child : Option ChildFn) (ctx : Ctx) (pos : Pos) (var : Option Str) (cond : Str) (body : List Node)
+    (budget count : Nat) (st : St) (out : List Str) (o : Out) (x : Str)
+    (h : whileLoop child ctx pos var cond body budget count st out = .ok o) (hx : assocHas st.env.user x = false) :
+    assocHas o.st.env.user x = false := by
+  induction budget generalizing count st out with
+  | zero => simp [whileLoop, raise] at h
+  | succ b ih =>
+    unfold whileLoop at h
+    cases child with
+    | none => simp [guardChild, overflowErr] at h
+    | some c =>
+      simp only [guardChild, R.bind_eq_ok] at h
+      obtain ⟨cst, _, cv, _, h⟩ := h
+      split at h
+      · cases h; exact leave_creates_nothing st cst x hx
+      · simp only [R.bind_eq_ok] at h
+        obtain ⟨r, _, h⟩ := h
+        split at h
+        · rename_i st' out' s heq
+          cases h
+          simp only [afterIter, Prod.mk.injEq] at heq
+          rw [← heq.1]
+          exact leave_creates_nothing st r.st x hx
+        · rename_i st' out' heq
+          simp only [afterIter, Prod.mk.injEq] at heq
+          exact ih _ _ _ h (by rw [← heq.1]; exact leave_creates_nothing st r.st x hx)
+
+/-- the state a block command starts its work from -/
+def _root_.Duckling.BlockAct.st0 : BlockAct → St
+  | .done o => o.st
+  | .body st => st
+  | .repeat _ _ st => st
+  | .while _ _ st => st
+
+/-- **what a block statement creates dies with it** — every kind of block command, any body, any number of iterations -/
+theorem C08_block_creates_nothing (child : Option ChildFn) (ctx : Ctx) (pos : Pos) (block : List Node) (act : BlockAct) (o : Out) (x : Str)
+    (h : runBlockAct child ctx pos block act = .ok o) (hx : assocHas act.st0.env.user x = false) :
+    assocHas o.st.env.user x = false := by
+  cases act with
+  | done o' => simp only [runBlockAct, R.ok.injEq] at h; subst h; exact hx
+  | body st =>
+    simp only [runBlockAct, R.bind_eq_ok] at h
+    obtain ⟨r, _, h⟩ := h
+    simp only [R.ok.injEq] at h
+    subst h
+    exact leave_creates_nothing st r.st x hx
+  | «repeat» var ce st => exact C08_repeat_creates_nothing child ctx pos var ce block _ _ st [] o x h hx
+  | «while» var cond st => exact C08_while_creates_nothing child ctx pos var cond block _ _ st [] o x h hx
 
 end Duckling.Props.C08
